@@ -14,7 +14,7 @@ from collections import deque
 from .interp import AbsRaise, Chooser, Interp, PathAbort
 from .values import Unsupported
 from .values import (
-    App, BoundMethod, ClassV, ConstObj, DictV, Ext, FuncV, LazyV, PartialV, Lin, ListOf, ListV, Obj, Sym, SymStr, UNRESOLVED, BuiltinV, Cond,
+    App, BoundMethod, ClassV, ConstObj, NTuple, DictV, Ext, FuncV, LazyV, PartialV, Lin, ListOf, ListV, Obj, Sym, SymStr, UNRESOLVED, BuiltinV, Cond,
 )
 
 
@@ -76,6 +76,8 @@ def clone(v, memo=None):
         return d
     if t is tuple:
         return tuple(clone(x, memo) for x in v)
+    if t is NTuple:
+        return NTuple(v.cls, [clone(x, memo) for x in v])
     if t is ClassV and not v.mutable:
         return v
     r = copy.deepcopy(v, memo)
@@ -244,7 +246,7 @@ def canon(root):
         if isinstance(v, ListOf):
             return ("listof", v.label)
         if isinstance(v, tuple):
-            return ("t",) + tuple(c(x) for x in v)
+            return ("t", getattr(getattr(v, "cls", None), "qualname", None)) + tuple(c(x) for x in v)
         if isinstance(v, dict):
             return ("pd", tuple((str(k), c(x)) for k, x in sorted(v.items(), key=lambda kv: str(kv[0]))))
         if isinstance(v, (list,)):
